@@ -269,6 +269,13 @@ func runCase(c corr.Case) (res corr.Result) {
 		for len(res.Outs) < len(c.Lines) {
 			res.Outs = append(res.Outs, "crash:process-died")
 		}
+		for _, l := range c.Lines {
+			if strings.HasPrefix(l, "xpanic ") {
+				// the exit callback was made to panic on purpose (outside the property's assumptions): whether that
+				// panic is recovered depends on the order of the two defers, which the property does not fix
+				return res
+			}
+		}
 		key := "C16:process:panic-escapes-goroutine"
 		if strings.Contains(msg, "c16-handler-panic") || strings.Contains(msg, "loopReceive") {
 			key = "C16:loopReceive:handler-panic-escapes"
